@@ -8,7 +8,8 @@ import execpipe as X
 import graphiso as G
 
 PROP = "C15"
-RULE = ("seeded random accepted files x corpus trees x {strict, lazy} x {no debug attributes, debug attributes with fresh names}, incl. "
+RULE = ("TLC enumerates all two-stanza programs over the MCExec statement pool and checks DebugNeutral / DebugComplete on both machines "
+        "(a sample is replayed into the library); seeded random accepted files x corpus trees x {strict, lazy} x {no debug attributes, debug attributes with fresh names}, incl. "
         "programs creating the same edge from several statements, and the same files in pseudo-random layouts (blanks, line breaks, comments, multi-line string literals); paired runs: success must agree and removing the three attributes "
         "must give the graph of the plain run; the debug run is validated against the TLA+ machine (variable text, 1-based line and "
         "column of the variable, matched syntax node); an edge's location must be that of an edge statement of the file; "
@@ -16,6 +17,7 @@ RULE = ("seeded random accepted files x corpus trees x {strict, lazy} x {no debu
 
 DBG = {"on": True, "loc": "dbg_loc", "var": "dbg_var", "mat": "dbg_mat"}
 NAMES = ["dbg_loc", "dbg_var", "dbg_mat"]
+MC = {}
 
 
 def edge_stmt_locs(x, out):
@@ -59,6 +61,16 @@ def make_cases(tier):
     for i, f in enumerate(multi_edge_files()):
         for s in range(1, nsrc + 1):
             base += A.both_modes("c15h-%d-%d" % (i, s), f, s)
+    # programs enumerated by TLC (MCExec: DebugNeutral and DebugComplete hold on the machines for every one of them), a sample replayed
+    import mcexec
+    progs, mstats, t = mcexec.run(tier, "c15_mcexec")
+    MC["programs"] = len(progs)
+    MC["distinct"] = mstats["distinct"]
+    MC["states"] = mstats["states"]
+    r = A.rng(15)
+    sample = [p for p in progs if p["strict"] == "ok" or p["lazy"] == "ok"]
+    r.shuffle(sample)
+    base += mcexec.cases(sample[: (40 if tier == "quick" else 1500)], t, "c15e")
     cases = []
     for c in base:
         for tag, dbg in (("plain", A.DBG_OFF), ("dbg", DBG)):
@@ -162,7 +174,9 @@ def run(tier):
                 V.violation(cid[:-6] + "-neutral", payload, {"observed": "ok", "neutral": "graph"})
         else:
             stats["both_err"] += 1
-    cov = run.coverage(RULE, {"debug": stats})
+    run.states += MC.get("distinct", 0)
+    run.trans += MC.get("states", 0)
+    cov = run.coverage(RULE, {"debug": stats, "mcexec": {"programs_enumerated": MC.get("programs"), "invariants": ["DebugNeutral", "DebugComplete"]}})
     cov["distinct_nontrivial"] = nontrivial
     return V.finish("model_checking", cov, X.TRUSTED)
 
